@@ -157,6 +157,17 @@ static bool relevant(const std::string& prop, const std::string& vprops, const C
     return false;
 }
 
+// A transition that does not finish is a violation (an endless loop), but only time the process actually spent
+// computing counts: the limit is on CPU time (ITIMER_PROF), so a machine that is busy with other work cannot turn a
+// slow schedule into a "timeout". A generous wall-clock alarm remains for a process that blocks.
+static void cpu_limit(int seconds)
+{
+    itimerval it{};
+    it.it_value.tv_sec = seconds;
+    setitimer(ITIMER_PROF, &it, nullptr);
+    alarm(seconds ? 1800 : 0);
+}
+
 // ---------------------------------------------------------------- record I/O
 struct Rec
 {
@@ -256,7 +267,7 @@ static Eng* replay_state(const Cli& cli, const History& hist)
 // clean (nothing suspicious happened) and may go on with the next transition.
 static bool run_transition(const Cli& cli, const History& hist, const Op& o, int fd, int fail_at, unsigned& allocs_out)
 {
-    alarm(20);
+    cpu_limit(20);
     Eng* e = replay_state(cli, hist);
     const unsigned replay_noise = static_cast<unsigned>(env::viols().size()) + g_asan_reports;
     env::viols().clear();
@@ -291,7 +302,7 @@ static bool run_transition(const Cli& cli, const History& hist, const Op& o, int
     {
         // fewer allocations than fail_at: nothing injected
         delete e;
-        alarm(0);
+        cpu_limit(0);
         return true;
     }
     if (in_fault)
@@ -332,7 +343,7 @@ static bool run_transition(const Cli& cli, const History& hist, const Op& o, int
     line += viol_lines(rel);
     line += "E\n";
     write_all(fd, line);
-    alarm(0);
+    cpu_limit(0);
     return clean;  // a process that saw anything suspicious is not reused (e is deliberately leaked)
 }
 // ---------------------------------------------------------------- coordinator
@@ -572,7 +583,7 @@ int main(int argc, char** argv)
                             g_prog->in_flight = 1;
                             std::snprintf(g_prog->opstr, sizeof g_prog->opstr, "<replay>");
                             g_prog->tag[0] = 0;
-                            alarm(20);
+                            cpu_limit(20);
                             Eng* e = replay_state(cli, hist);
                             if (!hist.empty() && node_canon[static_cast<size_t>(idx)] != "-" &&
                                 e->canon() != node_canon[static_cast<size_t>(idx)])
@@ -588,7 +599,7 @@ int main(int argc, char** argv)
                                 delete e;
                             }
                             // (a polluted state is not destroyed: its objects may be inconsistent; it is leaked)
-                            alarm(0);
+                            cpu_limit(0);
                             g_prog->in_flight = 0;
                             const bool resumed = q == pos && op_resume >= 0;
                             if (!resumed) write_all(fd, "B\t" + std::to_string(idx) + "\t" + std::to_string(ops.size()) + "\n");
@@ -627,7 +638,7 @@ int main(int argc, char** argv)
                         // the sub-worker died inside the transition recorded in g_prog
                         std::string why = WIFSIGNALED(st) ? "signal " + std::to_string(WTERMSIG(st))
                                                           : "exit " + std::to_string(WEXITSTATUS(st));
-                        if (WIFSIGNALED(st) && WTERMSIG(st) == SIGALRM) why = "timeout";
+                        if (WIFSIGNALED(st) && (WTERMSIG(st) == SIGALRM || WTERMSIG(st) == SIGPROF)) why = "timeout";
                         if (g_prog->crash[0]) why = std::string(g_prog->crash) + "," + why;
                         if (g_prog->tag[0]) why += std::string("@") + g_prog->tag;
                         if (g_prog->op < 0 && nodes[static_cast<size_t>(mine[static_cast<size_t>(pos)])].polluted)
